@@ -10,7 +10,9 @@ import "github.com/projectcalico/calico/felix/dataplane/windows/hns"
 func VerifFlattenTiers(tiers [][]*hns.ACLPolicy) []*hns.ACLPolicy { return flattenTiers(tiers) }
 
 // VerifRewritePriorities calls rewritePriorities.
-func VerifRewritePriorities(policies []*hns.ACLPolicy, limit uint16) { rewritePriorities(policies, limit) }
+func VerifRewritePriorities(policies []*hns.ACLPolicy, limit uint16) {
+	rewritePriorities(policies, limit)
+}
 
 // VerifCombinePorts calls combinePorts.
 func VerifCombinePorts(as, bs string) (string, error) { return combinePorts(as, bs) }
